@@ -8,13 +8,13 @@ TEXT = {
  "C18": {
   "text": "Bit-level theorems over all 2^64 binary64 patterns: the exact magnitude is strictly increasing in the magnitude bits, so the sign-magnitude key orders exact values; the shared range check accepts exactly the finite patterns whose exact value lies in [lo,hi] (both bounds included, lo/hi the documented numbers: boundBits_values proves their exact values), rejects every NaN and both infinities, and stores the pattern unchanged; all six types route JSON through try_from (attribute re-read from the source) so the JSON number route equals the number route. The comparison order, the twelve bound patterns and a correctly rounded decimal->binary64 model (text and JSON grammars) are compared with Rust (<=, <, ==, str::parse, serde_json) on large streams; the falsifier checks the three routes and composite documents.",
   "design_ref": "DESIGN.md §7 C18",
-  "note": "The decimal parsers (Rust dec2flt, serde_json) are modelled, not verified; 'malformed text is an error, not a panic' is explored (catch_unwind), the grammar model is validated by correspondence.",
+  "note": "The decimal parsers (Rust dec2flt, serde_json) are modelled, not verified; 'malformed text is an error, not a panic' is explored (catch_unwind), the grammar model is validated by correspondence. Route theorems: textRoute_in_range, textRoute_eq_number_route, jsonRoute_eq_textRoute; the text stream includes 16 families of non-literal notations (h:mm, 12,5, 45N ...) that must be rejected.",
   "technique": "Lean 4 + Mathlib (order) theorems over bit patterns + translator (ranges, serde attributes) + differential correspondence on bit-pattern and string streams",
  },
  "C15": {
   "text": "Theorems about the fan-in protocol as a labelled transition system (spawn/send/dropTx/recv/close over an unbounded FIFO channel per the mpsc contract), for EVERY schedule, every number of workers and every partition list: every partial result occurs in the state exactly as often as initially (conservation), so when the collector's loop has ended the merged results are exactly the workers' results (nothing lost or duplicated); the loop can end only after the original sender was dropped and every worker has sent; from every reachable unfinished state some action is enabled (no deadlock / lost wake-up); every schedule has at most 3k+2 steps; the sequential/parallel decision; with Thm C14 (exact-cover partition) the collected map is the sequential map. The skeleton of the real function (clone per worker inside the loop, drop(tx) after the loop and before join, collector appends all) is re-read from mod.rs on every run. Runtime: forced worker counts 1..64 and seeded perturbation, compared with the sequential API under a watchdog.",
   "design_ref": "DESIGN.md §7 C15",
-  "note": "PARTIAL at the runtime level: real thread scheduling, mpsc and thread::scope internals are exercised, not proved; the model cannot exhibit OS-level behaviour (spurious wake-ups, panics inside std).",
+  "note": "PARTIAL at the runtime level: real thread scheduling, mpsc and thread::scope internals are exercised, not proved; the model cannot exhibit OS-level behaviour (spurious wake-ups, panics inside std). parallel_eq_sequential composes protocol, partition cover and per-day range: for every completed schedule every date looks up the same result in the collected map as in the sequential map. The protocol skeleton is read structurally from the source (names captured).",
   "technique": "Lean 4 theorems over a labelled transition system (induction over schedules, counting invariant, decreasing measure) + translator (protocol skeleton) + schedule-perturbing runtime exploration",
  },
  "C01": {
@@ -56,13 +56,13 @@ TEXT = {
  "C10": {
   "text": "End-to-end theorems about adj_for_ext_lat for every scalar type: nearest-latitude 'all prayers' writes exactly the conventional hours of the substitute latitude (same day's geocentric ephemeris = from-scratch topocentric day at the substitute coordinates), all flagged; the Fajr/Isha variant exactly those two; seventh of night/day, angle-based and minutes-from-Maghrib give the stated expressions (24-(M-S))/7, (M-S)/7, (angle/60)*(24-M+S), S-FajrInterval, M+IshaInterval, flagged extreme; an interval-defined Isha keeps Maghrib+interval under every policy the interval pass does not skip; replaced values are flagged (Thm C08).",
   "design_ref": "DESIGN.md §7 C10",
-  "note": "Formulas are stated in the scalar's own arithmetic, hence exact over R; the 3-second agreement on the real code is checked by the falsifier.",
+  "note": "Formulas are stated in the scalar's own arithmetic, hence exact over R; the 3-second agreement on the real code is checked by the falsifier. The falsifier also probes purity (results depend on the arguments only: neighbours computed in sequence vs on a fresh thread).",
   "technique": "Lean 4 theorems generic in the scalar type + translator (dispatch/always/exclusion lists) + exhaustive-pattern correspondence + falsifier",
  },
  "C12": {
   "text": "For every scalar type: the six hours and the policy layer never read a minute offset; converting prayer p reads only minutes[p] and the rounding mode; Imsaak's conversion is a Fajr conversion with Fajr's offset (minus the Imsaak interval); interval definitions Isha=Maghrib+interval, Fajr=Shurooq-interval; Imsaak interval => Fajr offset reduced by it; when the reported Fajr is extreme Imsaak is that Fajr minus 1.5 min (or the interval) with its flag; changing the Asr school / Fajr angle / Isha angle / weather changes only the stated entries of get_hours; absent weather = default. Over R an offset of k minutes shifts the unrounded clock by exactly k minutes.",
   "design_ref": "DESIGN.md §7 C12, §9.2",
-  "note": "Angle/school/weather clauses are stated on get_hours (conventional computation); under replacing policies their scope follows DESIGN 9.2.",
+  "note": "Angle/school/weather clauses are stated on get_hours (conventional computation); under replacing policies their scope follows DESIGN 9.2. The falsifier also probes purity: each neighbour of a case (one argument changed, 12 kinds) computed after it on the same thread must equal the computation on a fresh thread.",
   "technique": "Lean 4 theorems generic in the scalar type (definitional non-interference) + R floor arithmetic + correspondence + falsifier",
  },
  "C13": {
@@ -104,13 +104,13 @@ TEXT = {
  "C08": {
   "text": "Theorems for EVERY scalar type: (1) the 12 policies restricted to Fajr/Isha leave Shurooq, Dhuhr, Asr, Maghrib exactly as computed (value and flag); (2) the six only-if-invalid policies return a valid angle-based Fajr/Isha exactly as the conventional result does and are the identity when all six hours exist; (3) in every result (15 policies) an unflagged entry equals the conventional entry, i.e. a replaced entry is flagged. The full-strength reading of (2) is proved FALSE with a generic witness (interval-defined Isha flagged extreme) - a known finding replayed on the code. Dispatch table, always-list and interval exclusions are regenerated from ext_lat.rs on every run.",
   "design_ref": "DESIGN.md §7 C08, §8",
-  "note": "(3) assumes, for NearestLatitudeAllPrayersAlways with an interval method, that the substitute latitude has a Fajr/Isha; the interval-consuming policies are quantified over angle-based methods as the property states. One open known finding (flag of interval-defined times).",
+  "note": "(3) assumes, for NearestLatitudeAllPrayersAlways with an interval method, that the substitute latitude has a Fajr/Isha; the interval-consuming policies are quantified over angle-based methods as the property states. One open known finding (flag of interval-defined times). Imsaak is included in the unflagged-is-conventional clause since fix 292f915 (theorems imsaak_unflagged_not_fallback / imsaak_unflagged_is_conventional).",
   "technique": "Lean 4 theorems generic in the scalar type + translator + exhaustive-pattern differential correspondence",
  },
  "C14": {
   "text": "Theorems over Int (all start/end/k, no bound): numDays = max(0,end-start+1); the dates visited are exactly start..=end once each in order; partition of a non-empty range is a list of non-empty contiguous sub-ranges covering it exactly; at most max(k,1) parts; empty range with k>=2 gives no part. The model's num_days/partition bodies are tied to date.rs by the translator (shape check + clamp flag) and by bit-level correspondence on (start,end,k) grids; the range API is compared with the single-date API by the falsifier.",
   "design_ref": "DESIGN.md §7 C14",
-  "note": "chrono date arithmetic modelled as integer day numbers (unit `civil` validates year/month/day/ordinal/leap against chrono); f64 ceil in partition modelled as integer ceil (exact below 2^52 days); per-day equality of range vs single-date API is tested, not proved (it is a for-loop over prayer_times_dt).",
+  "note": "chrono date arithmetic modelled as integer day numbers (unit `civil` validates year/month/day/ordinal/leap against chrono); f64 ceil in partition modelled as integer ceil (exact below 2^52 days); per-day equality of range vs single-date API is tested, not proved (it is a for-loop over prayer_times_dt). Dates and day numbers are in bijection (fromRD_toRD, fromRD_valid); the range API is compared with the single-date API over methods x policies x places x seasons (ranges that leave the season of extreme Fajr).",
   "technique": "Lean 4 theorems (omega/induction) over an integer model + translator + differential correspondence",
  },
  "C17": {
